@@ -9,7 +9,7 @@ from lxml import etree
 
 from sdc11073 import commlog, observableproperties
 from sdc11073.httpserver.compression import CompressionHandler
-from sdc11073.httpserver.httpreader import DecompressError, mk_chunks
+from sdc11073.httpserver.httpreader import DecompressError
 from sdc11073.namespaces import default_ns_helper as ns_hlp
 from sdc11073.pysoap.soapenvelope import Fault
 
@@ -23,6 +23,12 @@ if TYPE_CHECKING:
     from sdc11073.loghelper import LoggerAdapter
     from sdc11073.pysoap.msgfactory import CreatedMessage
     from sdc11073.pysoap.msgreader import MessageReader, ReceivedMessage
+
+
+async def _pieces(data: bytes, size: int):
+    """Yield data in pieces of size bytes; aiohttp sends every piece as one chunk."""
+    for i in range(0, len(data), size):
+        yield data[i:i + size]
 
 
 class SoapClientAsync:
@@ -140,13 +146,14 @@ class SoapClientAsync:
                         xml_request = CompressionHandler.compress_payload(compr, xml_request)
                         headers['Content-Encoding'] = compr
                         break
+            post_args = {}
             if self._chunk_size > 0:
-                headers['transfer-encoding'] = "chunked"
-                xml_request = mk_chunks(xml_request, chunk_size=self._chunk_size)
+                xml_request = _pieces(xml_request, self._chunk_size)
+                post_args['chunked'] = True
             else:
                 headers['Content-Length'] = str(len(xml_request))
 
-            async with self._http_connection.post(path, data=xml_request, headers=headers) as resp:
+            async with self._http_connection.post(path, data=xml_request, headers=headers, **post_args) as resp:
                 content = await resp.read()
                 actual_enc = ', '.join(resp.headers.getall('Content-Encoding', []))
                 if actual_enc:
